@@ -100,6 +100,8 @@ func runC30(c *core.Ctx) {
 			}
 		}
 	}
+	c.Rule("FMT9", "each action arm of a printer prints a sentence some production accepts")
+	checkActionArms(c, "FMT9", formats)
 	// ---- printed: field reads inside Format methods and the methods they call on their receiver
 	printed := map[string]bool{} // "Type.Field"
 	var visit func(n *types.Named, fd *ast.FuncDecl, seen map[*ast.FuncDecl]bool)
